@@ -164,6 +164,10 @@ def retargetLinks (p : Idx) : List Row → Idx × List Row
     let (p, outs) := retargetLinks p rest
     (p, out :: outs)
 
+/-- the tail of `GetHeaderDirectChildren`: `limit` is the already incremented limit -/
+def applyLimit (limit : Int) (outs : List Row) : List Row :=
+  if limit ≤ 0 || (outs.length : Int) < limit || outs.length == 0 then outs else outs.take (limit - 1).toNat
+
 def getHeaderDirectChildren (p : Idx) (name : Name) (limit : Int) : Idx × Except Err (List Row) :=
   let (p, name) := sanitize p name
   let limit := if limit > 0 then limit + 1 else limit
@@ -176,8 +180,7 @@ def getHeaderDirectChildren (p : Idx) (name : Name) (limit : Int) : Idx × Excep
     let rawLinks := directQuery p.rows prefix_ true rootDepth limit
     let (p, linkHeaders) := retargetLinks p rawLinks
     let outs := (nameHeaders ++ linkHeaders).filter (notSelf name)
-    (p, .ok (if limit ≤ 0 || (outs.length : Int) < limit || outs.length == 0 then outs
-             else outs.take (limit - 1).toNat))
+    (p, .ok (applyLimit limit outs))
 
 def deleteHeader (p : Idx) (name : Name) (lkRecd lkBlk : Int) : Idx × Except Err Row :=
   let (p, n) := sanitize p name
